@@ -97,7 +97,7 @@ def run(prop, tier, seed, scratch, t0):
         rule="every edge of the exhaustively model-checked graph of Update.tla (small constants) is replayed after its shortest path "
              "and continued until nothing is left to do; in addition TLC simulates behaviours of Update.tla with larger constants (programs of Update calls by either party, sequential and concurrent, "
              "every delivery order of the envelopes in flight, accept/reject, delayed answers, cancelled/expired call "
-             "contexts, contexts that end in the instant in which the call has taken a rejection from its receiver - DeliverResLate, driven "
+             "contexts, contexts that end in the instant in which the call has taken the response (rejection or acceptance) from its receiver - DeliverResLate, driven "
              "from go-perun's pluggable logger); each is replayed on two real clients in a synctest bubble: scheduled bus (native serializer round "
              "trip), strict ledger, recording persisters, scripted handlers; after every environment step (quiescence) the "
              "C06 monitors run on the real observations (every enabled transaction re-verified; success => proposed state "
